@@ -217,6 +217,7 @@ func c10Extract(dir string) (*c10Extractor, error) {
 	sort.Slice(decls, func(i, j int) bool { return c10DeclName(decls[i]) < c10DeclName(decls[j]) })
 	for _, fd := range decls {
 		w := &c10Walker{x: x, unit: x.units[c10DeclName(fd)], path: c10DeclName(fd), sig: map[string]bool{}, reassigned: c10Reassigned(info, fd.Body)}
+		w.aliases = c10ChanAliases(info, fd.Body, w.reassigned)
 		w.block(fd.Body.List, c10Held{})
 	}
 	x.propagate()
@@ -345,6 +346,27 @@ func (x *c10Extractor) propagate() {
 			}
 		}
 	}
+	// the send/close pseudo-field matters only for channels that are both sent on and closed
+	kinds := map[string]map[string]bool{}
+	for _, a := range x.accesses {
+		if strings.HasSuffix(a.Field, "<-close()") {
+			k := a.Struct + "." + a.Field
+			if kinds[k] == nil {
+				kinds[k] = map[string]bool{}
+			}
+			kinds[k][a.Kind] = true
+		}
+	}
+	var kept []*c10Access
+	for _, a := range x.accesses {
+		if strings.HasSuffix(a.Field, "<-close()") {
+			if k := kinds[a.Struct+"."+a.Field]; !(k["R"] && k["W"]) {
+				continue
+			}
+		}
+		kept = append(kept, a)
+	}
+	x.accesses = kept
 	for _, a := range x.accesses {
 		var rs []string
 		for r := range a.unit.roles {
@@ -399,6 +421,7 @@ type c10Walker struct {
 	reassigned map[types.Object]bool
 	dry        int
 	deferLocks c10Held // locks whose unlock has been deferred so far in this unit
+	aliases    map[types.Object]*ast.SelectorExpr // locals that are single-assignment copies of a channel field
 }
 
 func (w *c10Walker) block(list []ast.Stmt, h c10Held) (c10Held, bool) {
@@ -505,6 +528,7 @@ func (w *c10Walker) stmt(s ast.Stmt, h c10Held) (c10Held, bool) {
 		w.expr(s.X, true, h)
 		return h, false
 	case *ast.SendStmt:
+		w.chanOp(s.Chan, "R", s.Arrow, h)
 		w.expr(s.Chan, false, h)
 		w.expr(s.Value, false, h)
 		return h, false
@@ -681,6 +705,12 @@ func (w *c10Walker) lockOp(e ast.Expr) (base, lock, op string, ok bool) {
 	default:
 		return
 	}
+	if id, isId := sel.X.(*ast.Ident); isId {
+		if v, isVar := w.x.info.Uses[id].(*types.Var); isVar && v.Pkg() == w.x.pkg && v.Parent() == w.x.pkg.Scope() && c10IsSyncType(v.Type()) {
+			return "$pkg", id.Name, sel.Sel.Name, true
+		}
+		return
+	}
 	inner, isSel2 := sel.X.(*ast.SelectorExpr)
 	if !isSel2 {
 		return
@@ -696,7 +726,7 @@ func (w *c10Walker) rootLit(fl *ast.FuncLit, name, role string) {
 	u := w.x.unit(name)
 	u.roots[role] = true
 	// the goroutine/task also calls what its body calls; the creator does not "call" it
-	nw := &c10Walker{x: w.x, unit: u, path: name, sig: map[string]bool{}, reassigned: w.reassigned, dry: w.dry}
+	nw := &c10Walker{x: w.x, unit: u, path: name, sig: map[string]bool{}, reassigned: w.reassigned, dry: w.dry, aliases: w.aliases}
 	for k, v := range w.sig {
 		nw.sig[k] = v // a signaller() check before the go statement also precedes the goroutine
 	}
@@ -763,6 +793,107 @@ func (w *c10Walker) record(sel *ast.SelectorExpr, owner, kind string, h c10Held)
 		}
 	}
 	w.x.accesses = append(w.x.accesses, a)
+}
+
+
+// c10ChanAliases: locals assigned exactly once from a channel-typed field selector (chTask := c.chTask)
+func c10ChanAliases(info *types.Info, body *ast.BlockStmt, reassigned map[types.Object]bool) map[types.Object]*ast.SelectorExpr {
+	out := map[types.Object]*ast.SelectorExpr{}
+	ast.Inspect(body, func(n ast.Node) bool {
+		s, ok := n.(*ast.AssignStmt)
+		if !ok || len(s.Lhs) != len(s.Rhs) {
+			return true
+		}
+		for i, l := range s.Lhs {
+			id, ok := l.(*ast.Ident)
+			if !ok {
+				continue
+			}
+			sel, ok := s.Rhs[i].(*ast.SelectorExpr)
+			if !ok {
+				continue
+			}
+			tv, has := info.Types[sel]
+			if !has {
+				continue
+			}
+			if _, isChan := tv.Type.Underlying().(*types.Chan); !isChan {
+				continue
+			}
+			obj := info.Defs[id]
+			if obj == nil {
+				obj = info.Uses[id]
+			}
+			if obj != nil && !reassigned[obj] {
+				out[obj] = sel
+			}
+		}
+		return true
+	})
+	return out
+}
+
+// pkgVar: the package-level variable of package mqtt an identifier refers to (nil otherwise)
+func (w *c10Walker) pkgVar(id *ast.Ident) *types.Var {
+	v, ok := w.x.info.Uses[id].(*types.Var)
+	if !ok || v.Pkg() != w.x.pkg || v.Parent() != w.x.pkg.Scope() {
+		return nil
+	}
+	return v
+}
+
+// recordRaw records an access that is not a plain field selection: package-level state
+// (struct "$pkg") and the send/close pseudo-field of a channel field.
+func (w *c10Walker) recordRaw(owner, field, kind, base string, trusted bool, pos token.Pos, h c10Held) {
+	if w.dry > 0 || (w.unit.name == "init" && owner == "$pkg") {
+		return // package init functions run before main: ordered before everything
+	}
+	a := &c10Access{Struct: owner, Field: field, Fn: w.unit.name, Kind: kind, Base: base, unit: w.unit,
+		Pos: c10Pos(w.x.fset, pos), AfterSig: w.sig[base], Locks: []c10Lock{}}
+	if trusted {
+		var ks []string
+		for k := range h {
+			ks = append(ks, k)
+		}
+		sort.Strings(ks)
+		for _, k := range ks {
+			p := strings.SplitN(k, "\x00", 2)
+			if p[0] == base {
+				a.Locks = append(a.Locks, c10Lock{Field: p[1], Excl: h[k]})
+			}
+		}
+	}
+	w.x.accesses = append(w.x.accesses, a)
+}
+
+// chanOp: send (kind R) or close (kind W) on a channel that is a tracked field, directly or
+// through a single-assignment local copy. Channel operations synchronise among themselves, but
+// a send racing a close is a data race (and a "send on closed channel" panic): the race
+// detector's model, send = read, close = write of the channel.
+func (w *c10Walker) chanOp(ch ast.Expr, kind string, pos token.Pos, h c10Held) {
+	var sel *ast.SelectorExpr
+	switch e := ch.(type) {
+	case *ast.SelectorExpr:
+		sel = e
+	case *ast.Ident:
+		if obj := w.x.info.Uses[e]; obj != nil {
+			sel = w.aliases[obj]
+		}
+	}
+	if sel == nil {
+		return
+	}
+	owner, _ := w.fieldOwner(sel)
+	if owner == "" {
+		return
+	}
+	trusted := false
+	if id := c10RootIdent(sel.X); id != nil {
+		if obj := w.x.info.Uses[id]; obj != nil && !w.reassigned[obj] {
+			trusted = true
+		}
+	}
+	w.recordRaw(owner, sel.Sel.Name+"<-close()", kind, types.ExprString(sel.X), trusted, pos, h)
 }
 
 func c10Pos(fset *token.FileSet, p token.Pos) string {
@@ -841,7 +972,15 @@ func (w *c10Walker) expr(e ast.Expr, write bool, h c10Held) {
 			}
 		}
 		w.expr(e.X, inner, h)
-	case *ast.Ident, *ast.BasicLit:
+	case *ast.Ident:
+		if v := w.pkgVar(e); v != nil && !c10IsSyncType(v.Type()) {
+			k := "R"
+			if write {
+				k = "W"
+			}
+			w.recordRaw("$pkg", v.Name(), k, "$pkg", true, e.Pos(), h)
+		}
+	case *ast.BasicLit:
 	case *ast.ParenExpr:
 		w.expr(e.X, write, h)
 	case *ast.StarExpr:
@@ -885,6 +1024,10 @@ func (w *c10Walker) call(c *ast.CallExpr, h c10Held) {
 	// conversions and builtins
 	if id, ok := c.Fun.(*ast.Ident); ok {
 		switch id.Name {
+		case "close":
+			if len(c.Args) == 1 {
+				w.chanOp(c.Args[0], "W", c.Pos(), h)
+			}
 		case "delete":
 			if len(c.Args) == 2 {
 				w.expr(c.Args[0], false, h)
@@ -936,6 +1079,18 @@ func (w *c10Walker) call(c *ast.CallExpr, h c10Held) {
 		if s := w.x.info.Selections[sel]; s != nil && s.Kind() == types.MethodVal {
 			if _, isIface := s.Recv().Underlying().(*types.Interface); isIface {
 				w.unit.ifaceCalls[sel.Sel.Name] = true
+			}
+		}
+	}
+	if sel, ok := c.Fun.(*ast.SelectorExpr); ok {
+		if id, ok := sel.X.(*ast.Ident); ok {
+			if v := w.pkgVar(id); v != nil && !c10IsSyncType(v.Type()) {
+				if _, isIface := v.Type().Underlying().(*types.Interface); !isIface {
+					if s := w.x.info.Selections[sel]; s != nil && s.Kind() == types.MethodVal {
+						// e.g. a package-level *rand.Rand: its methods mutate shared state
+						w.recordRaw("$pkg", v.Name(), "W", "$pkg", true, sel.Sel.Pos(), h)
+					}
+				}
 			}
 		}
 	}
